@@ -50,6 +50,7 @@ var histSeqPairs = [][2]string{
 	{"A*64", "A*64"},
 	{"AB", "B"},
 	{"A*130", "A*65+B+A*64"},
+	{"ABCBA*60", "ABBCA*59+CC"}, // 300 x 297: a table of more than 65536 cells
 }
 
 // alignHistories explores call histories on long sequences: every ordered pair (and, for the
